@@ -1029,7 +1029,7 @@ fn main() {
     }
     rep.exhaustive("15 anchor stamps x every scalar-rhs / Neg / Not operator impl of datum.rs x payload {f32,Quantity,State,Command,bool}");
     // ---- 1c. random stamp pairs, all forms
-    for case in args.cases("datum-random", 1_500, 150_000) {
+    for case in args.cases("datum-random", 15_000, 1_000_000) {
         let mut rng = Rng::new(args.seed, 303, case);
         let (tl, tr) = draw_pair(&mut rng);
         let salt = rng.next_u64() as u32;
@@ -1056,7 +1056,7 @@ fn main() {
         }
     }
     rep.exhaustive("15x15 anchor pairs x {latest, replace_if_older_than, replace_if_none_or_older_than, .._option} x slot {empty, full} x candidate {Some, None} x 5 payloads");
-    for case in args.cases("helpers-random", 3_000, 300_000) {
+    for case in args.cases("helpers-random", 30_000, 2_000_000) {
         let mut rng = Rng::new(args.seed, 305, case);
         let (tl, tr) = draw_pair(&mut rng);
         let salt = rng.next_u64() as u32;
@@ -1098,7 +1098,7 @@ fn main() {
         rep.exhaustive("Latest arity 1..=5: every assignment of {absent, rank 1..n} to the n inputs (sum (n+1)^n = 8476 patterns), payload rotating over the 5 types");
     }
     // ---- 3b. Latest random, with occasional failing inputs
-    for case in args.cases("latest-random", 6_000, 600_000) {
+    for case in args.cases("latest-random", 60_000, 4_000_000) {
         let mut rng = Rng::new(args.seed, 307, case);
         let n = 1 + rng.usize(5);
         let stamps = ladder(&mut rng, n, draw_any);
@@ -1145,7 +1145,7 @@ fn main() {
         }
     }
     rep.exhaustive("15x15 anchor pairs x 4 input-presence combinations x {Sum2, DifferenceStream (f32,Quantity,State,Command), Product2, QuotientStream (f32,Quantity), ExponentStream, AndStream, OrStream (4 value combos), NotStream}");
-    for case in args.cases("streams2-random", 1_500, 150_000) {
+    for case in args.cases("streams2-random", 15_000, 1_000_000) {
         let mut rng = Rng::new(args.seed, 309, case);
         let (tl, tr) = draw_pair(&mut rng);
         let pres = if rng.chance(0.7) { 3 } else { rng.below(4) };
@@ -1213,7 +1213,7 @@ fn main() {
         }
     }
     rep.exhaustive("terminal: {own,partner} x {state,command} presence (16) x connected/unconnected x 11x11 moderate anchor stamp pairs");
-    for case in args.cases("terminal-random", 4_000, 400_000) {
+    for case in args.cases("terminal-random", 40_000, 3_000_000) {
         let mut rng = Rng::new(args.seed, 312, case);
         let mask = rng.below(4);
         let mut s = scenario(&mut rng, 1, mask)[0];
@@ -1228,7 +1228,7 @@ fn main() {
     }
 
     // ---- 5b. devices: one update each, distinct stamps on every terminal slot
-    for case in args.cases("device", 12 * 400, 12 * 40_000) {
+    for case in args.cases("device", 12 * 4_000, 12 * 300_000) {
         let kind = (case % 12) as usize;
         let round = case / 12;
         let n = kind_terms(kind);
